@@ -257,6 +257,8 @@ pub struct Parser {
     t: Vec<Tok>,
     p: usize,
     types: HashSet<String>,
+    /// names declared with a template header: only these are followed by template arguments
+    templates: HashSet<String>,
 }
 
 type PR<T> = Result<T, String>;
@@ -282,7 +284,7 @@ pub fn builtin_type(name: &str) -> Option<TyE> {
 
 impl Parser {
     pub fn new(tokens: Vec<Tok>) -> Parser {
-        Parser { t: tokens, p: 0, types: HashSet::new() }
+        Parser { t: tokens, p: 0, types: HashSet::new(), templates: HashSet::new() }
     }
 
     fn peek(&self) -> &Tok {
@@ -556,6 +558,12 @@ impl Parser {
             let name = self.ident()?;
             let name = if ns.is_empty() { name } else { format!("{}::{}", ns.join("::"), name) };
             if self.is_p("(") {
+                if is_template {
+                    self.templates.insert(name.clone());
+                    if let Some(leaf) = name.rsplit("::").next() {
+                        self.templates.insert(leaf.to_string());
+                    }
+                }
                 let f = self.function(ty, name, is_template, attrs)?;
                 u.funcs.push(f);
             } else {
@@ -977,7 +985,7 @@ impl Parser {
                     return Ok(Ex::AsType(ty, Box::new(a.remove(0))));
                 }
                 // call with explicit template arguments: name < args > (
-                if self.is_p("<") {
+                if self.is_p("<") && self.templates.contains(&name) {
                     if let Some(len) = self.template_args_len() {
                         let mut targs = Vec::new();
                         let save = self.p;
